@@ -9,6 +9,7 @@ from pyvc.api import *  # noqa: F403
 
 from contracts.common import RUST_MODELS, TASK_STUBS
 from contracts.tunnel_common import *  # noqa: F403
+from contracts.tunnel_shared import *  # noqa: F403
 
 try:
     from ipv8.messaging.anonymization.crypto import PythonCryptoEndpoint, CryptoException  # noqa: F401
@@ -208,3 +209,10 @@ contract(f"{TC}::TunnelCommunity.on_data", "on_data.e2e-data-goes-to-the-applica
                   "len(calls('exit_data')) == 0"],
          note="both directions of a linked hidden-service circuit (seeder and downloader side), whether or not the e2e flag is set on "
               "the circuit object and whatever the payload's first bytes are")
+
+
+# ---------------------------------------------------------------------------------------------------------------------
+# shared obligations on TunnelCommunity.on_create / on_data (contracts/tunnel_shared.py): an id in use - own circuit, relay or ANY exit
+# socket, enabled or not - is never taken over (a replayed create must not re-key an established hop); data is delivered only when it
+# comes from exactly the first hop's address (IP and port) and is attributed to the origin named in it
+on_create_and_on_data_contracts()
